@@ -7,6 +7,7 @@ ristretto.sage's `encodeSpec` specifies for `P` (`EncSpec`, relational form).  H
 every representative of the same group element (rescalings, the other member of the coset, affine or projective
 form), differ for different elements, are the 32-byte little-endian form of s, and have their top three bits clear.
 -/
+import Decaf.BuildsCmd
 import Decaf.Lemmas.RoundTrip
 
 namespace C03
@@ -70,3 +71,12 @@ example : Ext.encodeField sqrtRatioMin ⟨0, q - 1, 1, 0⟩ = some 0 ∧ Ext.enc
   decide +kernel
 
 end C03
+
+/-! ### the statements for the two shipped routines (`C09.ark_contract`, `C09.min_contract` discharge the premise) -/
+instantiate_builds C03.encode_eq_spec
+instantiate_builds C03.encode_total
+instantiate_builds C03.encode_respects_element
+instantiate_builds C03.encode_scale_invariant
+instantiate_builds C03.encode_injective
+instantiate_builds C03.eq_iff_encode_eq
+instantiate_builds C03.encode_bytes
